@@ -536,6 +536,114 @@ def main(ctx):
     ctx.lattice("ids", units, one_id,
                 bounds=dict(positions=len(units), depth_max=DMAX, forms=FORMS, seed=seed))
 
+    # ---- positions ON the edges of every triangle of levels 3..5 (6): the id chain across ALL depths
+    # A mesh of depth d stores some levels and computes the deeper ones on the fly; which levels are stored may depend on
+    # d.  Two ways of computing the same edge mid-point that differ in the last place disagree only about positions within
+    # an ulp of that edge - so every edge of the coarse levels is populated with points (mid-point, thirds, and their
+    # float64 neighbours) and the parent/child chain is checked between every pair of consecutive depths, whole arrays
+    # at a time.
+    def one_edge_chain(case, rec):
+        lev, part, nparts = case
+        ids = np.arange(8 * 4 ** lev, 16 * 4 ** lev, dtype="i8")[part::nparts]
+        v0, v1, v2 = triangles(ids, lev)
+        pts = []
+        for a, b in ((v0, v1), (v1, v2), (v2, v0)):
+            for t in (0.5, 1.0 / 3.0, 0.75):
+                m = a * (1 - t) + b * t
+                pts.append(m / np.sqrt((m * m).sum(axis=1))[:, None])
+        P_ = np.concatenate(pts)
+        ra = ((np.arctan2(P_[:, 1], P_[:, 0]) / D2R) % 360).astype("f8") % 360.0
+        dec = (np.arctan2(P_[:, 2], np.hypot(P_[:, 0], P_[:, 1])) / D2R).astype("f8")
+        ra = np.concatenate([ra, np.nextafter(ra, 400.0) % 360.0, ra])
+        dec = np.concatenate([dec, dec, np.clip(np.nextafter(dec, -100.0), -90.0, 90.0)])
+        prev = None
+        for depth in range(0, DMAX + 1):
+            try:
+                cur = np.asarray(htm.HTM(depth).lookup_id(ra, dec))
+            except Exception as e:
+                return rec.fail(case, "lookup_id raised %s: %s (depth %d)" % (type(e).__name__, e, depth))
+            if cur.shape != ra.shape or cur.min() < 8 * 4 ** depth or cur.max() >= 16 * 4 ** depth:
+                return rec.fail(case, "ids out of range / wrong shape at depth %d" % depth)
+            if prev is not None:
+                bad = np.nonzero((cur >> 2) != prev)[0]
+                if bad.size:
+                    k = int(bad[0])
+                    return rec.fail(case, "position ra=%r dec=%r (on an edge of a level-%d triangle): id %d at depth %d is not a child of id %d at depth %d (%d positions)"
+                                    % (float(ra[k]), float(dec[k]), lev, int(cur[k]), depth, int(prev[k]), depth - 1, bad.size))
+            prev = cur
+        rec.ok(case, outcome="edge-chain:level%d" % lev, nontrivial=True, calls=DMAX + 1)
+
+    ecunits = [(lev, part, nparts) for lev, nparts in ((3, 1), (4, 2), (5, 8)) + ctx.pick((), ((6, 32),)) for part in range(nparts)]
+    ctx.lattice("ids-on-coarse-edges", ecunits, one_edge_chain, envstrict=True,
+                bounds=dict(levels=[3, 4, 5] + ctx.pick([], [6]), points_per_edge="mid-point, 1/3, 3/4, and the float64 neighbours in ra and dec", depth_max=DMAX))
+
+    # ---- positions at the implementation's own DECISION boundaries
+    # The library does not switch triangles exactly on the edge but where its (tolerant) inside test flips, some 1e-14
+    # degrees away.  For an edge point of every level-3..5 triangle the declination at which the level ancestor of the
+    # depth-12 id (and, separately, of the depth-13 and depth-20 id) changes is located by bisection down to adjacent
+    # float64 values - all edges at once, array calls - and the float64 neighbourhood of every located boundary
+    # (+-3 ulps) is then put through the id chain over all depths.
+    def one_boundary(case, rec):
+        lev, part, nparts = case
+        ids = np.arange(8 * 4 ** lev, 16 * 4 ** lev, dtype="i8")[part::nparts]
+        v0, v1, v2 = triangles(ids, lev)
+        m = v0 * 0.5 + v1 * 0.5
+        m = m / np.sqrt((m * m).sum(axis=1))[:, None]
+        ra = ((np.arctan2(m[:, 1], m[:, 0]) / D2R) % 360).astype("f8") % 360.0
+        dec0 = (np.arctan2(m[:, 2], np.hypot(m[:, 0], m[:, 1])) / D2R).astype("f8")
+        ok = np.abs(dec0) < 89.0
+        ra, dec0 = ra[ok], dec0[ok]
+        found = []
+        for dsearch in (12, 13, DMAX):
+            h = htm.HTM(dsearch)
+            sh = 2 * (dsearch - lev)
+            lo, hi = dec0 - 1e-7, dec0 + 1e-7
+            alo, ahi = h.lookup_id(ra, lo) >> sh, h.lookup_id(ra, hi) >> sh
+            use = alo != ahi                      # the edge is crossed between lo and hi
+            if not use.any():
+                continue
+            r, lo, hi, alo = ra[use], lo[use], hi[use], alo[use]
+            for _ in range(70):
+                mid = lo + (hi - lo) / 2
+                stop = (mid == lo) | (mid == hi)
+                am = h.lookup_id(r, mid) >> sh
+                left = (am == alo) & ~stop
+                right = (am != alo) & ~stop
+                lo = np.where(left, mid, lo)
+                hi = np.where(right, mid, hi)
+                if stop.all():
+                    break
+            found.append((r, lo))
+        if not found:
+            return rec.fail(case, "harness: no edge crossing located")
+        R = np.concatenate([f[0] for f in found])
+        B = np.concatenate([f[1] for f in found])
+        ras, decs = [], []
+        for k in range(-3, 4):
+            d = B.copy()
+            for _ in range(abs(k)):
+                d = np.nextafter(d, 100.0 if k > 0 else -100.0)
+            ras.append(R)
+            decs.append(d)
+        ra_all, dec_all = np.concatenate(ras), np.concatenate(decs)
+        prev = None
+        for depth in range(0, DMAX + 1):
+            cur = np.asarray(htm.HTM(depth).lookup_id(ra_all, dec_all))
+            if cur.min() < 8 * 4 ** depth or cur.max() >= 16 * 4 ** depth:
+                return rec.fail(case, "ids out of range at depth %d" % depth)
+            if prev is not None:
+                bad = np.nonzero((cur >> 2) != prev)[0]
+                if bad.size:
+                    k = int(bad[0])
+                    return rec.fail(case, "position ra=%r dec=%r (where the inside test of a level-%d edge flips): id %d at depth %d is not a child of "
+                                          "id %d at depth %d (%d positions)" % (float(ra_all[k]), float(dec_all[k]), lev, int(cur[k]), depth, int(prev[k]), depth - 1, bad.size))
+            prev = cur
+        rec.ok(case, outcome="boundary-chain:level%d" % lev, nontrivial=True, calls=3 * 72 + DMAX + 1)
+
+    bdunits = [(lev, part, nparts) for lev, nparts in ((3, 1), (4, 2), (5, 8)) + ctx.pick((), ((6, 32),)) for part in range(nparts)]
+    ctx.lattice("ids-at-decision-boundaries", bdunits, one_boundary,
+                bounds=dict(levels=[3, 4, 5] + ctx.pick([], [6]), located_at_depths=[12, 13, DMAX], neighbourhood="+-3 ulps in declination", depth_max=DMAX))
+
     def one_id_array(case, rec):
         """the whole position set in ONE array call (also float32 input) against element-wise scalar calls"""
         depth, sd, dt = case
